@@ -734,11 +734,12 @@ Definition enter_input (r : rt) (s : str) : rt :=
                     rmod (fun r => set_state r StInputRunning)) in
           match m r with
           | (r', Ok _) => r'
-          | (r', _) =>
-              (* self.clear(); state = RuntimeError *)
-              fst (do_clear r')
+          | (r', Err e) =>
+              (* self.clear(); self.state = State::RuntimeError(error) *)
+              set_state (fst (do_clear r')) (StRuntimeError e)
+          | (r', _) => fst (do_clear r')
           end
-    | _ => fst (do_clear r)
+    | _ => set_state (fst (do_clear r)) (StRuntimeError (mkErr E_Internal None (0, 0)))
     end.
 
 Definition enter_inkey (r : rt) (s : str) : rt :=
